@@ -75,6 +75,19 @@ def _events_level_scoped(lvl, site, bp):
                 return False, f"the WHERE is a disjunction (AND binds tighter than OR) and its alternative `{' AND '.join(c.text() for c in grp)[:80]}` is not restricted to the bucket: {why}"
         return True, ""
     why = "no conjunct restricts bucketrow to the addressed bucket"
+    if getattr(lvl, "from_table", None) == "buckets":
+        # UPDATE events SET ... FROM buckets WHERE ...: a join; scoped iff the WHERE ties events.bucketrow to buckets.rowid
+        # AND picks the bucket by id = ?bucket (without the join predicate every events row is paired with the chosen bucket)
+        join = any({(c.left.kind, c.left.name), (c.right.kind, c.right.name)} == {("col", "bucketrow"), ("col", "rowid")} and c.op in ("=", "==") for c in lvl.where if c.left.kind == "col" and c.right.kind == "col")
+        pick = False
+        for c in lvl.where:
+            col, par = (c.left, c.right) if c.left.kind == "col" else (c.right, c.left)
+            if col.kind == "col" and col.name == "id" and getattr(col, "qual", None) == "buckets" and par.kind == "param" and c.op in ("=", "=="):
+                o = site.binding_origin(par.index)
+                pick = o is not None and o.kind == "param" and o.name == bp
+        if join and pick:
+            return True, ""
+        return False, ("UPDATE ... FROM buckets without the join predicate events.bucketrow = buckets.rowid: every events row is paired with the chosen bucket row, so the remaining condition (the event id) selects the row whichever bucket it belongs to" if not join else "the joined bucket row is not selected by id = ?bucket")
     for c in lvl.where:
         col, other = (c.left, c.right) if (c.left.kind == "col" and c.left.name == "bucketrow") else (c.right, c.left)
         if col.kind == "col" and col.name == "bucketrow" and c.op in ("=", "==", "IN"):
